@@ -136,3 +136,12 @@ Definition banded_po2 (c : po2cfg) (xb : Z) : Z :=
     if elo =? ehi then 0 else 1
   | None => 0
   end.
+
+(* ---- the rounding step in isolation ----
+   The float32 logarithm is an oracle; what the code does with the value l the kernel returned is exact:
+   tf.round (half to even) or tf.floor, then the clip to the exponent interval. *)
+Definition exp_from_log (m : l2mode) (mn mx : Z) (l : rat) : Z :=
+  clip mn mx (match m with LRnd => rhe (rnum l) (rden l) | LFloor => rnum l / rden l end).
+(* 0: the implementation's exponent e is exp_from_log of the oracle's value (bit pattern lb); 1: it is not *)
+Definition chk_exp_from_log (m : l2mode) (mn mx : Z) (lb e : Z) : Z :=
+  match f32_dec lb with Some l => if exp_from_log m mn mx l =? e then 0 else 1 | None => 3 end.
